@@ -42,3 +42,7 @@ Definition pf_seq := Eval vm_compute in failing prop_seq cases_seq.
 Print pf_seq.
 Definition pf_seq_steps := Eval vm_compute in map (first_bad 0 [] [] (RLoaded [])) (filter (fun l => negb (prop_seq l)) cases_seq).
 Print pf_seq_steps.
+(* premise of the theorems on the explored histories (non-vacuity) *)
+Definition premises_ok := Eval vm_compute in
+  count_true (fun l : list (op * error * list wallet * reloaded) => forallb (fun c => wf_op (fst (fst (fst c)))) l) cases_seq.
+Print premises_ok.
